@@ -302,6 +302,7 @@ where
             connect_tx,
             remote_cfg.connect_queue,
             port_allocator.clone(),
+            multiplexer.local_cfg.ports_exhausted,
             remote_listener_dropped,
             terminate_tx.clone(),
         );
